@@ -378,9 +378,15 @@ def tag_read_types(chk, cases):
         r = res.get(cid)
         if r is None or r.get("st") != "ok":
             continue
-        casts = re.findall(r"cast\s*::\s*<\s*([A-Za-z0-9_]+)\s*>", r.get("out", ""))
+        # (the type is written `::core::primitive::X` since a6f12f3; any other path counts as another type)
+        casts = [re.sub(r"\s+", "", c) for c in re.findall(r"cast\s*::\s*<\s*([A-Za-z0-9_:\s]+?)\s*>", r.get("out", ""))]
+        casts = [c[len("::core::primitive::"):] if c.startswith("::core::primitive::") else c for c in casts]
         chk.evaluations += 1
         want = e.get("int_repr")
+        if want and not casts and len(e["variants"]) >= 2 and "cast" in r.get("out", ""):
+            # the expansion casts, but not in a form this monitor reads: say so instead of passing
+            chk.inconc("tag-read-not-recognised")
+            continue
         bad = [c for c in casts if c != want]
         if bad:
             chk.violation("tag-read-type|%s|%s" % (want, bad[0]),
